@@ -183,7 +183,9 @@ class _RunnerIterator(iter_utils.MultiplexIterator[_ValueT]):
         ignore_error=self._ignore_error,
         with_result=self._with_result,
         with_agg_state=self._with_agg,
-        state=state.agg_state,
+        # The restored iterator updates its states in place: copy them so the
+        # captured state can be restored from more than once.
+        state=copy.deepcopy(state.agg_state),
     )
 
   @property
